@@ -179,6 +179,13 @@ typedef struct V
 
 void va_reset(void);                 /* free every V made since the last reset */
 void *va_alloc(size_t n);
+typedef struct
+{
+	void *chunk;
+	size_t used;
+} va_mark_t;
+va_mark_t va_mark(void);       /* nested scopes: everything allocated after the mark ... */
+void va_release(va_mark_t m);  /* ... is freed here */
 V *v_null(void);
 V *v_bool(int b);
 V *v_int(int neg, uint64_t mag);
